@@ -5,7 +5,7 @@ import os, re, subprocess, sys
 V = os.path.dirname(os.path.dirname(os.path.abspath(__file__)))
 p = os.path.join(V, "DESIGN.md")
 s = open(p).read()
-for name, tool in (("findings", "gen_findings_table.py"), ("seeds", "gen_seed_table.py")):
+for name, tool in (("findings", "gen_findings_table.py"), ("seeds", "gen_seed_table.py"), ("twins", "gen_twin_table.py")):
     out = subprocess.run([sys.executable, os.path.join(V, "tools", tool)], capture_output=True, text=True, check=True).stdout
     pat = re.compile(r"(<!-- BEGIN:%s -->\n).*?(<!-- END:%s -->)" % (name, name), re.S)
     if not pat.search(s):
